@@ -15,6 +15,7 @@
 #include <unistd.h>
 
 #include <pistache/common.h>
+#include <pistache/verif_hooks.h>
 #include <pistache/os.h>
 
 namespace Pistache
@@ -98,6 +99,7 @@ namespace Pistache
             if (isBound())
             {
                 uint64_t val = 1;
+                PISTACHE_VERIF_YIELD("q.notify");
                 TRY(write(event_fd, &val, sizeof val));
             }
 
@@ -111,6 +113,7 @@ namespace Pistache
             if (isBound())
             {
                 uint64_t val;
+                PISTACHE_VERIF_YIELD("q.drain");
                 for (;;)
                 {
                     ssize_t bytes = read(event_fd, &val, sizeof val);
@@ -220,13 +223,16 @@ namespace Pistache
             Entry* entry = new Entry(std::forward<U>(u));
             // @Note: we're using SC atomics here (exchange will issue a full fence),
             // but I don't think we should bother relaxing them for now
+            PISTACHE_VERIF_YIELD("q.xchg");
             auto* prev = head.exchange(entry);
+            PISTACHE_VERIF_YIELD("q.link");
             prev->next = entry;
         }
 
         virtual Entry* pop()
         {
             auto* res  = tail;
+            PISTACHE_VERIF_YIELD("q.pop");
             auto* next = res->next.load(std::memory_order_acquire);
             if (next)
             {
@@ -301,6 +307,7 @@ namespace Pistache
             if (isBound())
             {
                 uint64_t val = 1;
+                PISTACHE_VERIF_YIELD("q.notify");
                 TRY(write(event_fd, &val, sizeof val));
             }
         }
@@ -312,6 +319,7 @@ namespace Pistache
             if (isBound())
             {
                 uint64_t val;
+                PISTACHE_VERIF_YIELD("q.drain");
                 for (;;)
                 {
                     ssize_t bytes = read(event_fd, &val, sizeof val);
